@@ -3,6 +3,7 @@
 PROP = dict(
     technique='Lean inductive invariant over the critical-section transition system (covers re-entrant OnDelete trees), refinement to a reference map+recency list, structural nested interpreter; differential tie on op scripts',
     module="GolibsVerif.Theorems.C09", namespace="GolibsVerif.C09",
+    modules=["GolibsVerif.Theorems.C09", "GolibsVerif.Theorems.C09Frames"],
     rule="scripts of Set/Get/Del/Clear/Stats calls (small key/value alphabets; Set carries what each of its OnDelete calls does, "
          "re-entrant to depth 3) under combinations of MaxSize, MaxElementSize, MaxCount, EnableLRU, OnDelete nil/set, plus every "
          "script of <= 3 (thorough: 4) calls over a 7-call alphabet; non-trivial = the script causes >= 1 replacement, eviction "
@@ -20,7 +21,11 @@ PROP = dict(
                "tied to the Go code by running both on the same generated scripts on every check",
     level_note="full strength: inv_reachable, refines_reference, stats_bounded, get_latest, set_reports_replace, evict_is_lru, "
                "nolru_never_evicts, nolru_refuse_noop, too_large_refuse_noop, hit_miss_exact, sections_total, run_is_history, no_panic, no_panic_from, "
-               "onDelete_once, script_correct; nothing is _partial. trusted: Lean kernel; the differential correspondence (sampled); "
+               "onDelete_once, script_correct; on the framed refinement (Model/C09Frames.lean: a pending Set is a frame {key, val, phase}, frames "
+               "interleave arbitrarily between critical sections): frames_refine_steps (+ inv_reachable_framed, stats_bounded_framed, "
+               "get_latest_framed), onDelete_once_framed, evict_then_onDelete_framed, onDelete_after_evict_framed, "
+               "evict_only_when_needed_framed, commit_only_when_fits_framed, loop_head_decides, frame_progress, run_is_framed (every runScript "
+               "log is the projection of a framed execution); nothing is _partial. trusted: Lean kernel; the differential correspondence (sampled); "
                "list/unsafe code modelled as a list; Nat for uint/int32; callers do not mutate key/value slices after Set",
     assumptions=["callers do not modify the key/value slices handed to Set afterwards (the cache stores them without copying)",
                  "size + len(key) + len(val) does not wrap a uint; fewer than 2^31 Gets between two Clears (int32 counters)",
